@@ -15,7 +15,26 @@ Section FModel.
 Context {T : Type} `{Num T}.
 Variable rt : T -> T.       (* square root *)
 
+(* RosenbrockFunctional(space, scale=c):  sum_i c (x_{i+1} - x_i^2)^2 + (x_i - 1)^2  and its gradient
+   (the vector of partial derivatives; the code does not look at the weighting) *)
+Fixpoint rosen (c : T) (x : list T) : T :=
+  match x with
+  | a :: ((b :: _) as r) => c * ((b - a * a) * (b - a * a)) + (a - none_) * (a - none_) + rosen c r
+  | _ => nzero
+  end.
+Definition addhd (u : T) (l : list T) : list T :=
+  match l with h :: r => (h + u) :: r | [] => [] end.
+Fixpoint rgrad (c : T) (x : list T) : list T :=
+  match x with
+  | a :: ((b :: _) as r) =>
+      let t := b - a * a in
+      (- (of_Z 4 * c * t * a) + of_Z 2 * (a - none_)) :: addhd (of_Z 2 * c * t) (rgrad c r)
+  | [_] => [nzero]
+  | [] => []
+  end.
+
 Inductive fexpr :=
+| FRosen (n : nat) (c : T)                 (* RosenbrockFunctional(rn(n), scale=c), n >= 2 *)
 | FL2Sq (n : nat)                          (* L2NormSquared(rn(n)) *)
 | FL2 (n : nat)                            (* L2Norm *)
 | FL1 (n : nat)                            (* L1Norm *)
@@ -34,7 +53,7 @@ Inductive fexpr :=
 
 Fixpoint fdim (f : fexpr) : nat :=
   match f with
-  | FL2Sq n | FL2 n | FL1 n | FConst n _ => n
+  | FL2Sq n | FL2 n | FL1 n | FConst n _ | FRosen n _ => n
   | FLScal f _ | FRScal f _ | FSum f _ | FScalarSum f _ | FTransl f _ | FQP f _ _ _
   | FProd f _ | FQuot f _ | FRVec f _ => fdim f
   | FCompM _ _ n _ => n
@@ -42,6 +61,7 @@ Fixpoint fdim (f : fexpr) : nat :=
 
 Fixpoint fwt (f : fexpr) : bool :=
   match f with
+  | FRosen n _ => Nat.leb 2 n
   | FL2Sq _ | FL2 _ | FL1 _ | FConst _ _ => true
   | FLScal f _ | FRScal f _ | FScalarSum f _ => fwt f
   | FSum f g | FProd f g | FQuot f g => fwt f && fwt g && Nat.eqb (fdim f) (fdim g)
@@ -57,6 +77,7 @@ Fixpoint fwt (f : fexpr) : bool :=
 Definition all_one (w : list T) : bool := forallb (fun a => a =? none_) w.
 Fixpoint fok (w : list T) (f : fexpr) : bool :=
   match f with
+  | FRosen _ _ => all_one w      (* its gradient ignores the weighting: right only on unweighted spaces *)
   | FL2Sq _ | FL2 _ | FL1 _ | FConst _ _ => true
   | FLScal f _ | FRScal f _ | FScalarSum f _ | FTransl f _ | FQP f _ _ _ | FRVec f _ => fok w f
   | FSum f g | FProd f g | FQuot f g => fok w f && fok w g
@@ -65,6 +86,7 @@ Fixpoint fok (w : list T) (f : fexpr) : bool :=
 
 Fixpoint feval (w : list T) (f : fexpr) (x : list T) : T :=
   match f with
+  | FRosen _ c => rosen c x
   | FL2Sq _ => wdot w x x
   | FL2 _ => rt (wdot w x x)
   | FL1 _ => sumf (vmul w (map nabs x))          (* |x|.inner(one) *)
@@ -91,6 +113,7 @@ Fixpoint mtvec (n : nat) (rows : list (list T)) (g : list T) : list T :=
 (* the element f.gradient(x) *)
 Fixpoint fgrad (w : list T) (f : fexpr) (x : list T) : list T :=
   match f with
+  | FRosen _ c => rgrad c x
   | FL2Sq _ => vscal (of_Z 2) x                                   (* ScalingOperator(2) *)
   | FL2 _ => let nrm := rt (wdot w x x) in
              if nrm =? nzero then vconst (length x) nzero else map (fun a => a / nrm) x
@@ -112,7 +135,7 @@ Fixpoint fgrad (w : list T) (f : fexpr) (x : list T) : list T :=
 
 End FModel.
 
-Arguments FL2Sq {T}. Arguments FL2 {T}. Arguments FL1 {T}. Arguments FConst {T}.
+Arguments FRosen {T}. Arguments FL2Sq {T}. Arguments FL2 {T}. Arguments FL1 {T}. Arguments FConst {T}.
 Arguments FLScal {T}. Arguments FRScal {T}. Arguments FSum {T}. Arguments FScalarSum {T}.
 Arguments FTransl {T}. Arguments FQP {T}. Arguments FProd {T}. Arguments FQuot {T}.
 Arguments FRVec {T}. Arguments FCompM {T}.
